@@ -15,4 +15,7 @@ var readyIDs = map[string]bool{
 	// parts of composite properties
 	"C29wu": true, "C29we": true, "C53wu": true, "C53we": true, "C41rls": true, "C41ad": true,
 	"C01we": true, "C02we": true, "C17wti": true,
+	// scripted-server world (real client)
+	"C01wt": true, "C02wt": true, "C03wt": true, "C04wt": true, "C14wt": true, "C15wt": true, "C17wt": true,
+	"C03": true, "C04": true, "C06": true, "C11": true, "C13": true, "C14": true, "C15": true, "C14we": true,
 }
